@@ -24,6 +24,8 @@ impl Xerr {
     #[verifier::external_body] pub fn out_of_bounds_rel(ridx: isize, len: usize) -> Xerr { unimplemented!() }
     #[verifier::external_body] pub fn type_not_supported(val: Cell) -> Xerr { unimplemented!() }
     #[verifier::external_body] pub fn vec_stack_underflow() -> Xerr { unimplemented!() }
+    #[verifier::external_body] pub fn map_stack_underflow() -> Xerr { unimplemented!() }
+    #[verifier::external_body] pub fn map_missing_key() -> Xerr { unimplemented!() }
 }
 pub assume_specification [ <isize>::unsigned_abs ] (a: isize) -> (r: usize)
     ensures r == (if a < 0 { -(a as int) } else { a as int });
